@@ -241,5 +241,7 @@ Proof. split; vm_compute; reflexivity. Qed.
 Example tx_accumulate_hyps :
   is_empty float (nth 1 tx_tr1 tx_e) = false /\ width_ok float (nth 1 tx_tr1 tx_e) (length (names_of tx_cfg 2 (TName 0)))
   /\ snd (f_traced_solve_t tx_scripts tx_cfg (TName 0) false tx_desc (tx_opts 0 5) 1 tx_s1 tx_tr1) = Ret true
-  /\ length (tr_index (nth 1 (snd (fst (f_traced_solve_t tx_scripts tx_cfg (TName 0) false tx_desc (tx_opts 0 5) 1 tx_s1 tx_tr1))) tx_e)) = 12%nat.
-Proof. repeat split; vm_compute; reflexivity. Qed.
+  /\ length (tr_index (nth 1 (snd (fst (f_traced_solve_t tx_scripts tx_cfg (TName 0) false tx_desc (tx_opts 0 5) 1 tx_s1 tx_tr1))) tx_e)) = 14%nat.
+Proof.
+  split; [vm_compute; reflexivity|]. split; [vm_compute; reflexivity|]. split; vm_compute; reflexivity.
+Qed.
